@@ -24,7 +24,8 @@ MANIFEST = {
             "descendant update() call resolves from the store object to the object by get_referable (the C07 resolver); the first "
             "consulted source whose scheme is missing/unregistered aborts the walk with ValueError/UnknownBackendException and the "
             "calls before it have been made. Tie: recording Backend classes registered for private schemes, exhaustive small shapes x "
-            "all placements x all targets plus generated trees over every container kind.",
+            "all placements x all targets plus generated trees over every container kind."
+            " That get_backend consults the registry on every call (no memoising decorator) is regenerated from the source (c17_backend_lookup_not_memoised).",
     "note": "developed against /repo + fixes/C17-list-index-path-segment.patch (path segment of a list child = its index, not the "
             "generated id_short). Known finding (pinned by ReferableTest.test_update, not repairable with the suite unedited): the path "
             "update() hands over via find_source() starts with the store object's own id_short, so it does not resolve from the store "
